@@ -28,6 +28,7 @@ ASSUMPTIONS = [
     "time-of-day extractors are driven on second-or-finer units only; whether a result is int or float (NaT present) is not asserted, values compare numerically",
     "from_string(to_string(x, f), f) is asserted for years >= 1000 only (platform strftime('%Y') does not zero-pad)",
     "a scalar '' is not judged (a scalar cannot be missing)",
+    "nanosecond vectors hold whole microseconds and stay within 1678-2261, also after replace (the result keeps the unit of its input)",
 ]
 REACH = {"quick": {"fn:dt-extract": 1200, "fn:dt-replace": 400, "fn:dt-to_string": 400, "fn:dt-roundtrip": 400, "fn:regex": 1500, "na:all": 200, "len:0": 200,
                    "form:proxy": 1000, "form:scalar": 500, "unit:D": 300, "unit:us": 300, "unit:ms": 100, "unit:s": 100, "after-inplace-edit": 500}}
@@ -44,6 +45,9 @@ STRINGS = ["abc\x00", "abc\x00\x00", "asdf", "1234", "ab", "abab ab", "one two t
 
 def _mk_dt(rng, unit):
     d = rng.choice(EDGE_DATES)
+    if unit == "ns":
+        # nanosecond vectors (what pandas data arrives as) only span 1678-2261
+        d = rng.choice([x for x in EDGE_DATES if 1700 < x.year < 2200])
     if unit == "D":
         return d
     h, mi, s, us = rng.choice([0, 1, 12, 23]), rng.choice([0, 5, 59]), rng.choice([0, 7, 59]), rng.choice([0, 1, 250000, 999999])
@@ -66,14 +70,16 @@ def generate(rng, tier):
                     repl=rng.choice(["!", "", r"<\g<0>>", "zz", r"\\", r"[\g<0>]"]), count=rng.choice([0, 0, 1, 2]))
     else:
         fn = rng.choice(EXTRACT) if fam == "extract" else fam
-        unit = rng.choice(["s", "ms", "us"]) if fn in TIME_PARTS else rng.choice(["D", "D", "h", "m", "s", "ms", "us", "us"])
+        unit = rng.choice(["s", "ms", "us", "ns"]) if fn in TIME_PARTS else rng.choice(["D", "D", "h", "m", "s", "ms", "us", "us", "ns"])
+        if fam == "roundtrip" and unit == "ns":
+            unit = "us"
         vals = [_mk_dt(rng, unit) for _ in range(n)]
         case.update(fn=fn, unit=unit)
         if fam == "replace":
             comps = {}
-            parts = ["year", "month", "day"] + (["hour", "minute", "second"] if unit in ("s", "ms", "us") else []) + (["microsecond"] if unit == "us" else [])
+            parts = ["year", "month", "day"] + (["hour", "minute", "second"] if unit in ("s", "ms", "us", "ns") else []) + (["microsecond"] if unit in ("us", "ns") else [])
             for p in rng.sample(parts, rng.randint(1, 3)):
-                rngs = {"year": [1, 1999, 2024, 9999], "month": [1, 2, 12], "day": [1, 15, 28], "hour": [0, 23], "minute": [0, 59], "second": [0, 59], "microsecond": [0, 999999]}[p]
+                rngs = {"year": [1, 1999, 2024, 9999] if unit != "ns" else [1999, 2024, 1800], "month": [1, 2, 12], "day": [1, 15, 28], "hour": [0, 23], "minute": [0, 59], "second": [0, 59], "microsecond": [0, 999999]}[p]
                 if rng.random() < 0.5 and form != "scalar":
                     comps[p] = [rng.choice(rngs) for _ in range(n)]
                 else:
